@@ -9,6 +9,7 @@ import (
 	"github.com/plgd-dev/go-coap/v3/message"
 	"github.com/plgd-dev/go-coap/v3/message/pool"
 	coapSync "github.com/plgd-dev/go-coap/v3/pkg/sync"
+	"github.com/plgd-dev/go-coap/v3/pkg/verifhook"
 	"golang.org/x/sync/semaphore"
 )
 
@@ -79,6 +80,7 @@ func (c *LimitParallelRequests) acquireEndpoint(ctx context.Context, endpointLim
 			processedCounter: 1,
 		}
 	})
+	verifhook.Yield("limit.acquire.beforeSelect", endpointLimitKey)
 	select {
 	case <-ctx.Done():
 		c.releaseEndpoint(endpointLimitKey)
